@@ -24,6 +24,8 @@ type fieldProv struct {
 	consts  []constant.Value
 	unknown bool
 	stack   []*ssa.Call // call sites entered while walking callee results (context for parameters)
+	pre     map[string]bool // operations applied to the text before the pattern that feeds a group was matched
+	local   bool            // stop at parameters (what the function itself does to its input)
 }
 
 func (fp *fieldProv) addGroup(ri *regexInfo, idx int) {
@@ -116,6 +118,17 @@ func (p *Prog) provWalk(v ssa.Value, fp *fieldProv, seen map[ssa.Value]bool, dep
 					for _, call := range calls {
 						if ri := p.regexOf(call.Call.Args[0]); ri != nil && ri.Err == nil {
 							fp.addGroup(ri, int(k))
+							// what was done to the text before it was matched (trimming, case mapping)
+							if len(call.Call.Args) > 1 {
+								pre := &fieldProv{via: map[string]bool{}, local: true}
+								p.provWalk(call.Call.Args[1], pre, map[ssa.Value]bool{}, depth+1)
+								if fp.pre == nil {
+									fp.pre = map[string]bool{}
+								}
+								for m := range pre.via {
+									fp.pre[m] = true
+								}
+							}
 						} else {
 							all = false
 						}
@@ -133,6 +146,10 @@ func (p *Prog) provWalk(v ssa.Value, fp *fieldProv, seen map[ssa.Value]bool, dep
 			p.provWalk(ad, fp, seen, depth+1)
 		}
 	case *ssa.Parameter:
+		if fp.local && len(fp.stack) == 0 {
+			fp.via["input"] = true
+			return
+		}
 		fn := x.Parent()
 		idx := -1
 		for i, q := range fn.Params {
